@@ -9,7 +9,16 @@ use serde_json::{json, Value};
 /// out: {ev:"zone_resolve", zone, dump, results:[{q, res, via_zones}]}
 pub fn zone_resolve(inp: &str, out: &str) {
     crate::for_each_line(inp, out, |v| {
-        let zone = json_to_zone(&v["zone"]).expect("zone json");
+        let mut zone = json_to_zone(&v["zone"]).expect("zone json");
+        // a history: zones of the same apex merged in afterwards (Zone::merge), then the lookups
+        let mut merged = false;
+        if let Some(ms) = v["merge"].as_array() {
+            for m in ms {
+                let other = json_to_zone(m).expect("zone json");
+                let _ = zone.merge(other);
+                merged = true;
+            }
+        }
         let mut zones = Zones::new();
         zones.insert(zone.clone());
         let mut results = Vec::new();
@@ -28,7 +37,7 @@ pub fn zone_resolve(inp: &str, out: &str) {
             };
             results.push(json!({"q": qv, "res": res, "via_zones_same": same}));
         }
-        json!({"ev": "zone_resolve", "zone": v["zone"], "dump": zone_to_json(&zone), "results": results})
+        json!({"ev": "zone_resolve", "zone": v["zone"], "merged": merged, "dump": zone_to_json(&zone), "results": results})
     });
 }
 
